@@ -200,6 +200,12 @@ func freeRun(t *testing.T, conc int64, period time.Duration, rng *rand.Rand, w *
 			r.mu.Lock()
 			r.inv[verifhook.Goid()] = i
 			r.mu.Unlock()
+			defer func() {
+				if p := recover(); p != nil { // classify, do not abort: the monitor still sees the whole recording
+					r.log(tev{Ev: "Panic", I: i})
+					close(returned[i-1])
+				}
+			}()
 			r.mgr.InvokeBackgroundTask(body, timeout)
 			r.log(tev{Ev: "Return", I: i})
 			close(returned[i-1])
@@ -268,6 +274,7 @@ type gstep struct {
 	I   int    `json:"i"`
 	N   int    `json:"n"`
 	Cx  bool   `json:"cx"` // BodyEnd: the specification says the context of this body has been cancelled
+	W   int    `json:"w"`  // ReleaseSem: the queued invocation the slot is handed to (0 = none)
 }
 
 type gjob struct {
@@ -311,7 +318,7 @@ func TestVerifTaskGated(t *testing.T) {
 		st := gstat{Name: j.Name, Walks: len(j.Walks), Diverged: map[string]int{}}
 		bad, hangs := 0, 0
 		for _, walk := range j.Walks {
-			if st.Diverged["release-blocked"] >= limit {
+			if st.Diverged["release-blocked"] >= limit || st.Diverged["acquire-blocked"] >= limit {
 				// the implementation waits for the body before releasing: walks of the non-waiting design do not apply
 				st.Skipped++
 				continue
@@ -336,7 +343,7 @@ func TestVerifTaskGated(t *testing.T) {
 					hangs++
 					continue
 				}
-				if why != "release-blocked" && why != "select-other-arm" {
+				if why != "release-blocked" && why != "acquire-blocked" && why != "select-other-arm" {
 					// a step the specification enables did not happen: after a few of these the rest of the job is skipped
 					// (reported as inconclusive by the check unless the monitor finds a property formula false)
 					if bad++; bad >= 4 {
@@ -463,7 +470,7 @@ func gatedWalk(t *testing.T, j gjob, walk []gstep, w *json.Encoder) (int, string
 	// deadline may pass earlier than the step, which changes nothing observable before the body ends); the others 24h
 	timeouts := map[int]time.Duration{}
 	for _, s := range walk {
-		if s.Act == "Timeout" {
+		if s.Act == "Timeout" || s.Act == "AcquireTimeout" {
 			timeouts[s.I] = 2 * time.Millisecond
 		}
 	}
@@ -480,6 +487,11 @@ func gatedWalk(t *testing.T, j gjob, walk []gstep, w *json.Encoder) (int, string
 			r.mu.Lock()
 			r.inv[g] = i
 			r.mu.Unlock()
+			defer func() {
+				if p := recover(); p != nil {
+					r.log(tev{Ev: "Panic", I: i})
+				}
+			}()
 			r.mgr.InvokeBackgroundTask(body(i), timeout)
 			r.mu.Lock()
 			r.parkLocked(&park{name: "drv.return", i: i, g: g})
@@ -573,6 +585,16 @@ func gatedWalk(t *testing.T, j gjob, walk []gstep, w *json.Encoder) (int, string
 			if _, ok := r.release(stepWait, "task.Acquire", s.I, 0); !ok || !r.waitFor(stepWait, r.parkedAt(s.I, "task.Decide")) {
 				fail("acquire")
 			}
+		case "AcquireBlock":
+			// no slot is free: the invocation goes into Acquire and queues there; it comes back with a hand-over
+			if _, ok := r.release(stepWait, "task.Acquire", s.I, 0); !ok {
+				fail("acquireblock")
+			}
+		case "AcquireTimeout":
+			// (design with Acquire under the timeout ctx) the queued invocation gives up waiting and goes on without a slot
+			if !r.waitFor(blockWait, r.parkedAt(s.I, "task.Decide")) {
+				fail("acquire-blocked") // the implementation keeps waiting for a slot
+			}
 		case "Decide":
 			if _, ok := r.release(stepWait, "task.Decide", s.I, 0); !ok || !r.waitFor(stepWait, r.parkedAt(s.I, "task.Select", "task.Release")) {
 				fail("decide")
@@ -631,6 +653,8 @@ func gatedWalk(t *testing.T, j gjob, walk []gstep, w *json.Encoder) (int, string
 			}
 			if !r.waitFor(stepWait, r.parkedAt(s.I, "task.Load", "drv.return")) {
 				fail("release")
+			} else if s.W > 0 && !r.waitFor(stepWait, r.parkedAt(s.W, "task.Decide")) {
+				fail("handover")
 			}
 		case "Return":
 			if _, ok := r.release(stepWait, "drv.return", s.I, 0); !ok || !r.waitFor(stepWait, r.seen(from, "Return", s.I)) {
